@@ -1,7 +1,9 @@
 // C22 implementation driver: the seven OKL translators of the library built from /repo, run
 // in-process on the same kernel source (what `occa translate -m <mode>` does, without the CLI).
 //   input  line:  the OKL source of one translation unit, on one line
-//   output line:  R <s><o><c><h><l><m><d>     one character per translator, in the order
+//   output line:  R <g><s><o><c><h><l><m><d>  one character per parser: first the generic parser_t with the
+//                 OKL attributes registered and no OKL validation (is the text a well-formed program at
+//                 all: the generated cases always are), then the translators in the order
 //                 Serial OpenMP CUDA HIP OpenCL Metal dpcpp:
 //                   1  parser.succeeded()            (kernel accepted)
 //                   0  parser ran and reports failure (kernel rejected with an error)
@@ -19,6 +21,8 @@
 #include <occa/internal/lang/modes/opencl.hpp>
 #include <occa/internal/lang/modes/metal.hpp>
 #include <occa/internal/lang/modes/dpcpp.hpp>
+#include <occa/internal/lang/modes/okl.hpp>
+#include <occa/internal/lang/parser.hpp>
 #include <occa.hpp>
 
 static occa::lang::parser_t* makeParser(int m) {
@@ -42,6 +46,18 @@ int main(int argc, char **argv) {
   std::string line;
   while (std::getline(std::cin, line)) {
     std::string flags;
+    {
+      char f = '0';
+      try {
+        occa::lang::parser_t generic;
+        occa::lang::okl::addOklAttributes(generic);
+        generic.parseSource(line);
+        f = generic.succeeded() ? '1' : '0';
+      } catch (...) {
+        f = 'x';
+      }
+      flags.push_back(f);
+    }
     for (int m = 0; m < 7; ++m) {
       if (modes.find((char) ('0' + m)) == std::string::npos) {
         flags.push_back('-');
